@@ -31,7 +31,7 @@ theorem slots_after {T : Stat} {c : SCtx} {nd nd' : Nat} {pre : List Item} (hp :
     exact (h3 _ hm).2
 
 section
-variable (T : Stat) {s : Store} {out : CSem2.Outcome} {lp : Bool} {brk cont : String} {c : SCtx}
+variable (T : Stat) {s : Store} {out : CSem2.Outcome} {lp : Bool × Bool} {brk cont : String} {c : SCtx}
   {nd nd' : Nat} {pre post : List Item} {env : Env} {M : Mem}
 
 /-- controlling expression and branch: control arrives at the label selected by the value -/
@@ -62,10 +62,10 @@ theorem sim_branch (hp : Pos T c nd pre) (e : Expr) (k : Nat)
 
 theorem sim_ite (n : Nat) (ih : SimStmt T n) (e : Expr) (a : Stmt)
     (hex : exec T.S.cs (n + 1) s (.ite e a) = some out) (hfr : frag (.ite e a) = true)
-    (hwt : Stmt.wt T.vtys T.ret lp nd (.ite e a) = some nd') (hp : Pos T c nd pre)
+    (hwt : Stmt.wt T.vtys T.ret lp.1 lp.2 nd (.ite e a) = some nd') (hp : Pos T c nd pre)
     (hext : Ext T (funcstmt T.S.cs brk cont (.ite e a) c).ctx)
     (hits : T.S.its = pre ++ (funcstmt T.S.cs brk cont (.ite e a) c).items ++ post)
-    (hlp : lp = true → CanJump T.S brk ∧ CanJump T.S cont)
+    (hlp : (lp.1 = true → CanJump T.S brk) ∧ (lp.2 = true → CanJump T.S cont))
     (inv : SInv T.S.cs T.σ T.vtys s env M) :
     Post T lp brk cont (T.at env M pre) (pre ++ (funcstmt T.S.cs brk cont (.ite e a) c).items)
       (funcstmt T.S.cs brk cont (.ite e a) c).ctx out := by
@@ -73,7 +73,8 @@ theorem sim_ite (n : Nat) (ih : SimStmt T n) (e : Expr) (a : Stmt)
   simp only [Stmt.wt] at hwt
   split at hwt
   · rename_i hwe
-    obtain ⟨hna, hca⟩ := wt_noDead _ _ a _ _ _ hwt
+    have hwe := hwe.1
+    obtain ⟨hna, hca⟩ := wt_noDead _ _ a _ _ _ _ hwt
     simp only [exec, Option.bind_eq_some_iff] at hex
     obtain ⟨v, hev, hex⟩ := hex
     have hj2 : ((c.upd (exprOut T.S.cs c e).ctx).addBlocks 2).jump = none := hp.jump
@@ -154,10 +155,10 @@ theorem sim_ite (n : Nat) (ih : SimStmt T n) (e : Expr) (a : Stmt)
 
 theorem sim_itee (n : Nat) (ih : SimStmt T n) (e : Expr) (a b : Stmt)
     (hex : exec T.S.cs (n + 1) s (.itee e a b) = some out) (hfr : frag (.itee e a b) = true)
-    (hwt : Stmt.wt T.vtys T.ret lp nd (.itee e a b) = some nd') (hp : Pos T c nd pre)
+    (hwt : Stmt.wt T.vtys T.ret lp.1 lp.2 nd (.itee e a b) = some nd') (hp : Pos T c nd pre)
     (hext : Ext T (funcstmt T.S.cs brk cont (.itee e a b) c).ctx)
     (hits : T.S.its = pre ++ (funcstmt T.S.cs brk cont (.itee e a b) c).items ++ post)
-    (hlp : lp = true → CanJump T.S brk ∧ CanJump T.S cont)
+    (hlp : (lp.1 = true → CanJump T.S brk) ∧ (lp.2 = true → CanJump T.S cont))
     (inv : SInv T.S.cs T.σ T.vtys s env M) :
     Post T lp brk cont (T.at env M pre) (pre ++ (funcstmt T.S.cs brk cont (.itee e a b) c).items)
       (funcstmt T.S.cs brk cont (.itee e a b) c).ctx out := by
@@ -165,10 +166,11 @@ theorem sim_itee (n : Nat) (ih : SimStmt T n) (e : Expr) (a b : Stmt)
   simp only [Stmt.wt] at hwt
   split at hwt
   · rename_i hwe
+    have hwe := hwe.1
     simp only [Option.bind_eq_some_iff] at hwt
     obtain ⟨n1, hwa, hwb⟩ := hwt
-    obtain ⟨hna, hca⟩ := wt_noDead _ _ a _ _ _ hwa
-    obtain ⟨hnb, hcb⟩ := wt_noDead _ _ b _ _ _ hwb
+    obtain ⟨hna, hca⟩ := wt_noDead _ _ a _ _ _ _ hwa
+    obtain ⟨hnb, hcb⟩ := wt_noDead _ _ b _ _ _ _ hwb
     simp only [exec, Option.bind_eq_some_iff] at hex
     obtain ⟨v, hev, hex⟩ := hex
     have hj2 : ((c.upd (exprOut T.S.cs c e).ctx).addBlocks 2).jump = none := hp.jump
